@@ -88,6 +88,8 @@ type c10Run struct {
 	hung        bool
 	bootHold    func(bool)
 	gated       int // 1+goroutine held inside GetChunk by the store's gate
+	down        bool   // the last start-up returned an error: nothing is served until the next start
+	staleClass  string // how the state file became stale (names the failure class)
 	preloadWant int // store calls expected once the preload workers are finished
 	abandoned   map[int]bool
 }
@@ -249,10 +251,12 @@ func (x *c10Run) exec(tok, k int, q c10Req) (ok bool) {
 		cls := "sparse/stale-zeros"
 		x.mu.Lock()
 		if x.loadedStale {
-			cls = "sparse/stale-state-after-cache-loss"
+			cls = x.staleClass
 		}
 		x.mu.Unlock()
-		if int64(n) != want {
+		if int64(n) > want {
+			cls = "sparse/read-past-end"
+		} else if int64(n) != want {
 			cls = "sparse/short-read"
 		}
 		x.fail(tok, cls, fmt.Sprintf("ReadAt(len=%d, off=%d) reported success (%v) with %d bytes that are not blob[%d:%d]", q.ln, q.off, err, n, q.off, q.off+want))
@@ -303,9 +307,15 @@ func c10Bits(b []byte, n int) string {
 
 func (x *c10Run) restart(tok int, t string) error {
 	parts := strings.Split(t, ":")
+	failKind := "" // Y:<cache>:<m|l>: a start-up with a separate init file that is missing (m) or has the wrong length (l)
+	if parts[0] == "Y" && len(parts) == 3 {
+		failKind = parts[2]
+		parts = []string{"X", "1", parts[1], "0"}
+	}
 	if len(parts) != 4 {
 		return fmt.Errorf("bad restart token %q", t)
 	}
+	x.down = false
 	x.mu.Lock()
 	for k, h := range x.handles { // handles of goroutines that were killed while blocked are abandoned, not closed
 		if !x.abandoned[k] {
@@ -347,8 +357,19 @@ func (x *c10Run) restart(tok int, t string) error {
 	}
 	if haveState && lost {
 		x.staleState = true
+		x.staleClass = "sparse/stale-state-after-cache-loss"
+		if failKind != "" {
+			x.staleClass = "sparse/stale-state-after-failed-startup"
+		}
 	}
 	opt := desync.SparseFileOptions{StateSaveFile: x.state}
+	switch failKind {
+	case "m":
+		opt.StateInitFile = filepath.Join(x.dir, "no-such-init-state")
+	case "l":
+		opt.StateInitFile = filepath.Join(x.dir, "init-state-of-another-index")
+		os.WriteFile(opt.StateInitFile, bytes.Repeat([]byte{0xff}, (len(x.idx.Chunks)+7)/8+1), 0644)
+	}
 	if parts[3] == "1" && haveState && parts[1] == "1" {
 		opt.StateInitFile = x.state
 		opt.StateInitConcurrency = 2
@@ -374,6 +395,13 @@ func (x *c10Run) restart(tok int, t string) error {
 	x.bootHold(true)
 	err := x.start(opt)
 	x.bootHold(false)
+	if failKind != "" && !stateUsed {
+		if err == nil {
+			x.fail(tok, "sparse/startup-accepts-bad-init-state", "NewSparseFile succeeded although the init state file is "+map[string]string{"m": "missing", "l": "of the wrong length"}[failKind])
+		}
+		x.down = true // there is no loader until the next start
+		return nil
+	}
 	if err != nil {
 		return fmt.Errorf("NewSparseFile: %v", err)
 	}
@@ -463,7 +491,7 @@ func c10Run1(a vh.Args, c *c10Case) (obs string, x *c10Run, err error) {
 		}
 		for ti, t := range c.Script {
 			switch {
-			case t[0] == 'X':
+			case t[0] == 'X' || t[0] == 'Y':
 				// a restart is a kill: a goroutine parked at the yield point never continues, one blocked behind it neither
 				hookMu.Lock()
 				armed = false
@@ -486,7 +514,7 @@ func c10Run1(a vh.Args, c *c10Case) (obs string, x *c10Run, err error) {
 				continue
 			}
 			x.mu.Lock()
-			crashed := x.crashed
+			crashed := x.crashed || x.down
 			x.mu.Unlock()
 			if crashed {
 				continue
@@ -646,6 +674,8 @@ func c10Check(a vh.Args, o *vh.Oracle, r *vh.Result, c *c10Case) error {
 		switch {
 		case t[0] == 'X':
 			r.Dist("restart:" + t[2:])
+		case t[0] == 'Y':
+			r.Dist("failed-startup:" + t[2:])
 		case strings.HasSuffix(t, ":S"):
 			r.Dist("op:writestate")
 		case t[0] == 'Q':
@@ -671,8 +701,7 @@ func c10Check(a vh.Args, o *vh.Oracle, r *vh.Result, c *c10Case) error {
 	if o != nil && c.Digest == "sha256" {
 		cc := &c09Case{Digest: c.Digest, Max: c.Max, BlobHex: c.BlobHex, Sizes: c.Sizes, Missing: c.Missing, Faults: c.Faults}
 		_, _, _, rows, tab := c09Build(cc)
-		script := strings.Join(c.Script, ",")
-		ans, err := o.Call("c10.run", strconv.Itoa(c.Max), rows, tab, c09FaultArg(cc), strings.ReplaceAll(script, "B", "D"))
+		ans, err := o.Call("c10.run", strconv.Itoa(c.Max), rows, tab, c09FaultArg(cc), strings.ReplaceAll(c10OracleScript(c.Script), "B", "D"))
 		if err != nil {
 			return err
 		}
@@ -690,6 +719,39 @@ func c10Check(a vh.Args, o *vh.Oracle, r *vh.Result, c *c10Case) error {
 }
 
 var c10EIO = regexp.MustCompile(`=E:[a-z0-9-]+`)
+
+// c10OracleScript translates the script for the model: a start-up that fails late (Y:<cache>:l) is the label
+// LFailedStart; one that fails early (Y:<cache>:m) has changed nothing but what the environment did to the cache file,
+// which the next start meets instead: it is folded into that start's cache mode.  Nothing runs between a failed
+// start-up and the next start.
+func c10OracleScript(script []string) string {
+	var out []string
+	down, pending := false, ""
+	for _, t := range script {
+		switch {
+		case t[0] == 'Y':
+			p := strings.Split(t, ":")
+			down = true
+			if p[2] == "l" {
+				out = append(out, "Y:"+p[1])
+				pending = ""
+			} else if p[1] != "K" {
+				pending = p[1]
+			}
+		case t[0] == 'X':
+			p := strings.Split(t, ":")
+			if pending != "" && p[2] == "K" {
+				p[2] = pending
+			}
+			pending, down = "", false
+			out = append(out, strings.Join(p, ":"))
+		case down:
+		default:
+			out = append(out, t)
+		}
+	}
+	return strings.Join(out, ",")
+}
 
 func c10Diff(m, g string) string {
 	ms, gs := strings.Split(m, ";"), strings.Split(g, ";")
@@ -879,6 +941,32 @@ func c10GenReread(rng *vh.Rand, c *c10Case) {
 	c.Script = append(c.Script, tok, "D0")
 }
 
+// a start-up that fails in between: populate + save; the cache file is lost or resized; the next start-up returns an
+// error (its init state file is missing, or is not for this index); the start after that finds state + cache
+func c10GenFailedStart(rng *vh.Rand, c *c10Case) {
+	L := 0
+	for _, s := range c.Sizes {
+		L += s
+	}
+	for i := 0; i < rng.Intn(4); i++ {
+		c.Script = append(c.Script, c10ReadTok(rng, 0, c.Sizes, c.Max), "D0")
+	}
+	c.Script = append(c.Script, fmt.Sprintf("Q0:R:0:%d", L), "D0", "Q0:S", "D0")
+	lose := "A"
+	if rng.Bool() {
+		k := rng.Intn(L + 3)
+		if k == L {
+			k = L + 1
+		}
+		lose = fmt.Sprintf("R%d", k)
+	}
+	c.Script = append(c.Script, "Y:"+lose+":"+[]string{"m", "l"}[rng.Intn(2)])
+	if rng.Bool() { // nothing is served by a loader that failed to start
+		c.Script = append(c.Script, c10ReadTok(rng, 1, c.Sizes, c.Max), "D1")
+	}
+	c.Script = append(c.Script, []string{"X:1:K:0", "X:1:K:1", "X:1:A:0"}[rng.Intn(3)], "DA", fmt.Sprintf("Q2:R:0:%d", L), "D2")
+}
+
 // two readers of the same unloaded chunk: the first is held inside GetChunk (gated store) while the second arrives and
 // waits for the chunk's mutex; then the first one's fetch fails.  The waiter must load the chunk itself (or fail).
 func c10GenGate(rng *vh.Rand, c *c10Case) {
@@ -957,6 +1045,16 @@ func runC10(a vh.Args, o *vh.Oracle, r *vh.Result) error {
 				r.Note("run aborted after a hang")
 				return nil
 			}
+			return err
+		}
+	}
+	for i := 0; i < nConc/5; i++ {
+		c := mk("failed-start")
+		if len(c.Sizes) == 0 {
+			continue
+		}
+		c10GenFailedStart(rng, c)
+		if err := c10Check(a, o, r, c); err != nil {
 			return err
 		}
 	}
